@@ -109,7 +109,69 @@ Exercised ==
                                   /\ ev.who = pre.feeds[ev.feed].creator
        [] c = "restart_after_autopause" -> gh.restart
        [] c = "reject" -> ~ev.ok}
-Coverage == Exercised = {} \/ PrintT(<<"EXERCISED", Exercised>>)
+(***************************************************************************)
+(* Round 7 (negative probing): every feed command x the state of the feed  *)
+(* it addresses x the sender's role, as "m_<cmd>_<state>_<role>", and the  *)
+(* unusual inputs.  States of a feed before the event: paused (by its      *)
+(* creator, or never started), autop (paused for lack of funds), idle      *)
+(* (running, no batch), open0 / openN (batch in flight with no / some      *)
+(* answers), full (every provider asked has answered, the batch waits for  *)
+(* its expiration height).  Roles: creator, prov (a bound provider), other.*)
+(***************************************************************************)
+FeedClass(f) ==
+  LET cx == pre.ctx[pre.feeds[f].ctx] IN
+  IF cx.state = "paused"
+  THEN (IF f \in gh.autop \/ (ev.name = "StartFeed" /\ ev.ok /\ gh.restart) THEN "autop" ELSE "paused")
+  ELSE IF cx.reqN > 0 /\ ~cx.bdone THEN (IF cx.respN = 0 THEN "open0" ELSE "openN")
+  ELSE IF cx.reqN > 0 /\ cx.expAt # 0 THEN "full"
+  ELSE "idle"
+RoleOf(f) ==
+  IF ev.who = pre.feeds[f].creator THEN "creator" ELSE IF ev.who \in DOMAIN pre.bind THEN "prov" ELSE "other"
+CmdOf == CASE ev.name = "StartFeed" -> "start" [] ev.name = "PauseFeed" -> "pause" [] OTHER -> "edit"
+Matrix ==
+  IF ev.name \in {"StartFeed", "PauseFeed", "EditFeed"} /\ ev.feed \in DOMAIN pre.feeds
+       /\ pre.feeds[ev.feed].ctx \in DOMAIN pre.ctx
+  THEN {"m_" \o CmdOf \o "_" \o FeedClass(ev.feed) \o "_" \o RoleOf(ev.feed)}
+  ELSE {}
+OddProv(q) == \E i \in DOMAIN q : ProvOf(q[i]) # q[i]
+(* (guards: the antecedents must be evaluable on whatever state a broken tree produces) *)
+HasCtx(f) == f \in DOMAIN pre.feeds /\ pre.feeds[f].ctx \in DOMAIN pre.ctx
+ReqsOf(f) == pre.ctx[pre.feeds[f].ctx].reqs
+Probes ==
+  IF ev.name = "Init" THEN {} ELSE
+  (IF ev.name = "Respond" /\ ev.pay # "" THEN {"pay_" \o ev.pay} ELSE {}) \cup
+  {c \in {"pay_zero_counts", "odd_prov_ok", "odd_prov_rej", "bad_name_rej", "case_twin_ok", "unknown_name_cmd",
+          "cap_denom_rej", "respond_stranger", "respond_expiry_block", "respond_late", "respond_twice",
+          "complete_after_edit", "nested_path", "index_path", "create_invalid", "create_by_prov",
+          "svc_name_rej", "agg_case_rej"} :
+     CASE c = "pay_zero_counts" -> ev.name = "Respond" /\ ev.pay \in ZeroPays /\ ev.feed \in Appending(pre, ev, st)
+       [] c = "odd_prov_ok" -> ev.name \in {"CreateFeed", "EditFeed"} /\ ev.ok /\ OddProv(ev.provs)
+       [] c = "odd_prov_rej" -> ev.name \in {"CreateFeed", "EditFeed"} /\ ~ev.ok /\ OddProv(ev.provs)
+                                  /\ Apply(pre, ev).why = "duplicate_providers"
+       [] c = "bad_name_rej" -> ev.name = "CreateFeed" /\ ev.feed \in BadFeedNames
+       [] c = "case_twin_ok" -> ev.name = "CreateFeed" /\ ev.ok /\ ev.feed = "FA" /\ "fa" \in DOMAIN pre.feeds
+       [] c = "unknown_name_cmd" -> ev.name \in {"StartFeed", "PauseFeed", "EditFeed", "Respond", "SvcDirect"}
+                                  /\ ev.feed \notin DOMAIN pre.feeds /\ pre.feeds # <<>>
+       [] c = "cap_denom_rej" -> ev.name \in {"CreateFeed", "EditFeed"} /\ ev.pay \in CapPays /\ ev.cap > 0
+       [] c = "respond_stranger" -> ev.name = "Respond" /\ HasCtx(ev.feed) /\ ev.who \notin DOMAIN pre.bind
+                                  /\ DOMAIN ReqsOf(ev.feed) # {}
+       [] c = "respond_expiry_block" -> ev.name = "Respond" /\ ev.ok /\ HasCtx(ev.feed)
+                                  /\ ev.who \in DOMAIN ReqsOf(ev.feed) /\ ReqsOf(ev.feed)[ev.who].exp = pre.h
+       [] c = "respond_late" -> ev.name = "Respond" /\ HasCtx(ev.feed) /\ ev.who \in DOMAIN pre.bind
+                                  /\ DOMAIN ReqsOf(ev.feed) = {} /\ pre.ctx[pre.feeds[ev.feed].ctx].bcount > 0
+       [] c = "respond_twice" -> ev.name = "Respond" /\ HasCtx(ev.feed)
+                                  /\ ev.who \in DOMAIN ReqsOf(ev.feed) /\ ~ReqsOf(ev.feed)[ev.who].act
+       [] c = "complete_after_edit" -> \E f \in Appending(pre, ev, st) :
+                                  pre.ctx[pre.feeds[f].ctx].bthr # pre.ctx[pre.feeds[f].ctx].thr
+       [] c = "nested_path" -> ev.name = "CreateFeed" /\ ev.ok /\ ev.pay = "nested"
+       [] c = "index_path" -> ev.name = "CreateFeed" /\ ev.ok /\ ev.pay = "index"
+       [] c = "create_invalid" -> ev.name = "CreateFeed" /\ ~ev.ok /\ ev.feed \notin DOMAIN pre.feeds
+                                  /\ ev.feed \notin BadFeedNames
+       [] c = "svc_name_rej" -> ev.name = "CreateFeed" /\ ev.pay \in SvcPays
+       [] c = "agg_case_rej" -> ev.name = "CreateFeed" /\ ev.agg = "MAX"
+       [] c = "create_by_prov" -> ev.name = "CreateFeed" /\ ev.ok /\ ev.who \in DOMAIN pre.bind}
+AllExercised == Exercised \cup Matrix \cup Probes
+Coverage == AllExercised = {} \/ PrintT(<<"EXERCISED", AllExercised>>)
 
 Report == (l = Len(Trace) + 1) => PrintT(<<"TRACE-END", Len(Trace), drift, driftAt>>)
 
